@@ -155,6 +155,10 @@ class Sym:
                 return f"(if {truthy(c, tc)} then {a} else {b})", "optstr"
             if ta == tb:
                 return f"(if {truthy(c, tc)} then {a} else {b})", ta
+            if {ta, tb} <= {"bool", "none", "optbool"}:
+                def lift(x, t):
+                    return x if t == "optbool" else "None" if t == "none" else f"(Some {x})"
+                return f"(if {truthy(c, tc)} then {lift(a, ta)} else {lift(b, tb)})", "optbool"
             raise Untranslatable(f"conditional expression with branches {ta} / {tb}")
         raise Untranslatable("expression " + ast.dump(n)[:120])
 
